@@ -115,13 +115,25 @@ theorem markTermIfCompleted_ext (idx) : Rel extPre (markTermIfCompleted idx) := 
   unfold markTermIfCompleted
   ext_walk []
 
+theorem machineStep_ext (k idx ev) : Rel extPre (machineStep k idx ev) := by
+  unfold machineStep
+  ext_walk [restageRetry_ext _ _ _]
+
+theorem updateHead_ext (k ev) : Rel extPre (updateHead E k ev) := by
+  unfold updateHead
+  ext_walk [ensureRecord_ext E _ _ _ _, noteEvent_ext _ _ _, machineStep_ext _ _ _]
+
+theorem updateTail_ext (recur : TaskKey → Event → M Unit) (hrec : ∀ k ev, Rel extPre (recur k ev))
+    (k ev h) : Rel extPre (updateTail E recur k ev h) := by
+  unfold updateTail updateRest
+  ext_walk [hrec _ _, completedRetryDecision_ext E _ _ _ _ _, evalTransitions_ext E _ _ _ _, markTermIfCompleted_ext _]
+
 theorem updateTaskStateAux_ext (fuel k ev) : Rel extPre (updateTaskStateAux E fuel k ev) := by
   induction fuel generalizing k ev with
   | zero => unfold updateTaskStateAux; exact Rel.throw _
   | succ n ih =>
     unfold updateTaskStateAux
-    ext_walk [ih _ _, ensureRecord_ext E _ _ _ _, noteEvent_ext _ _ _, restageRetry_ext _ _ _,
-      completedRetryDecision_ext E _ _ _ _ _, evalTransitions_ext E _ _ _ _, markTermIfCompleted_ext _]
+    ext_walk [updateHead_ext E _ _, updateTail_ext E _ (fun k ev => ih k ev) _ _ _]
 
 theorem updateTaskState_ext (k ev) : Rel extPre (updateTaskState E k ev) := updateTaskStateAux_ext E 3 k ev
 
